@@ -409,8 +409,12 @@ def c02(run, replay):
     for i in range(4 if not thorough else 12):
         scen.append({"sc": "c02.stress", "args": {"n": rnd.choice([16, 64]), "transport": "ws", "cancel": True, "procs": 1, "p": 0.3,
                                                   "delay": rnd.sample(HOOK_POINTS_REQ, 6)}})
+    # a request that cannot be encoded is issued while others are in flight
+    for n, bad in ((3, 1), (4, 2)):
+        scen.append({"sc": "c02.badwrite", "args": {"n": n, "bad": bad}})
     trace, viol = run_ws_scenarios(run, wd, scen, "c02")
     report_ws(run, trace, viol, "C02", scen, "scenario")
+    binding_pass(run, wd, [s for s in scen if s["sc"] != "c02.stress" or s["args"]["n"] <= 16], "c02", limit=12 if not thorough else 120)
     run.cov["distinct_nontrivial"] = len(set(json.dumps(s, sort_keys=True) for s in scen))
     run.cov["rule"] = "scenarios as listed in assumptions; distinct = distinct scenario descriptions (kind, permutation / script, transport, perturbation set)"
     for s in scen[:2] + scen[-2:]:
@@ -439,6 +443,10 @@ def fault_scenarios(rnd, thorough):
                                                      "window": rnd.random() < 0.5, "double": True, "pos2": pos2, "sub": True}})
     for pos in (FAULT_POS if thorough else ["cut-payload", "after"]):
         scen.append({"sc": "c03.fault", "args": {"dir": "s2c", "frame": 1, "pos": pos, "style": "fin", "noreconnect": True}})
+    # a silent stall (black hole, noticed only through keepalive), with calls issued inside the reconnect window
+    for traffic in (False, True):
+        for window in ((False, True) if thorough else (True,)):
+            scen.append({"sc": "c03.fault", "args": {"style": "stall", "window": window, "traffic": traffic, "errors": rnd.random() < 0.5, "sub": rnd.random() < 0.3}})
     scen.append({"sc": "trap.staledelete", "args": {}})     # TLC counterexample of WsRpc_c03_nostalefix.cfg, forced with gates
     for errors in (False, True):
         for hold in ([1, 20, 60] if thorough else [20]):
@@ -463,6 +471,10 @@ def outage_scenarios(rnd, thorough):
                                                               "minus": rnd.choice([1000, 2000, 4000]), "maxus": rnd.choice([6000, 10000, 30000])}})
     # a long outage: well over a hundred failed redials (scaled-down delays) - the schedule must stay within [min, max] for ever
     scen.append({"sc": "c05.outage", "args": {"faileddials": 130, "errors": False, "second": False, "style": "fin", "minus": 1, "maxus": 150}})
+    # retry-tagged method without a context parameter; keepalive on, and the healed link must be as good as the first one
+    for nc, keep in ((True, False), (False, True), (True, True)):
+        scen.append({"sc": "c05.outage", "args": {"faileddials": rnd.choice([1, 2]), "errors": rnd.random() < 0.5, "second": False, "style": rnd.choice(["fin", "rst"]),
+                                                  "minus": 2000, "maxus": 10000, "nc": nc, "keepalive": keep, "healedphase": keep}})
     scen.append({"sc": "c05.outage", "args": {"noreconnect": True, "errors": False}})
     scen.append({"sc": "c05.outage", "args": {"noreconnect": True, "errors": True}})
     return scen
@@ -494,6 +506,7 @@ def c03(run, replay):
     scen = fault_scenarios(rnd, thorough)
     trace, viol = run_ws_scenarios(run, wd, scen, "c03", hooks=False, timeout=3000)
     report_ws(run, trace, viol, "C03", scen, "fault")
+    binding_pass(run, wd, scen, "c03", limit=10 if not thorough else 100)
     # C02's token clauses must hold under faults too: report them here as C03 (no foreign result whatever fault occurs)
     for v in viol:
         if v[1] == "C02" and v[2] in ("foreign-result", "returned-more-than-once"):
@@ -557,6 +570,7 @@ def c05(run, replay):
     scen.append({"sc": "c17.keepalive", "args": {"pingms": 10, "timeoutms": 100, "blackhole": "steady", "longx": 1.5, "idlex": 1}})
     trace, viol = run_ws_scenarios(run, wd, scen, "c05", hooks=True, timeout=3000)
     report_ws(run, trace, viol, "C05", scen, "outage")
+    binding_pass(run, wd, [s for s in scen if s["args"].get("faileddials", 0) < 20], "c05", limit=8 if not thorough else 60)
     for v in viol:   # not re-establishing the link after a silent stall is a C05 failure as much as a C17 one
         if v[1] == "C17" and v[2] in ("no-redial-after-silent-peer", "pending-call-not-failed-after-silent-peer"):
             run.violation("outage: %s" % v[2], v[2], {"property": "C05", "scenario": scen[v[0] - 1], "clause": v[2], "call": v[3]})
@@ -630,15 +644,19 @@ def stream_scenarios(rnd, thorough):
     for o in (orders if thorough else rnd.sample(orders, 3)):
         scen.append({"sc": "c07.stream", "args": {"lens": [4, 4, 4, 4], "consumers": ["fast"] * 4, "closeorder": list(o), "unary": 1}})
     scen.append({"sc": "c07.stream", "args": {"lens": [3, 3, 3, 3, 3], "consumers": ["fast"] * 5, "closeorder": rnd.sample([3, 13, 23, 33, 43], 5), "unary": 1}})
+    # the same, with the streams that stay open going on sending between the closes
+    for o in (orders if thorough else rnd.sample(orders, 2)):
+        scen.append({"sc": "c07.stream", "args": {"lens": [8, 8, 8, 8], "consumers": ["fast"] * 4, "closeorder": list(o), "unary": 1, "staged": True}})
+    scen.append({"sc": "c07.stream", "args": {"lens": [10, 10, 10, 10, 10], "consumers": ["fast"] * 5, "closeorder": rnd.sample([3, 13, 23, 33, 43], 5), "unary": 1, "staged": True}})
     # far beyond every internal buffer size, with a subscriber that never reads
-    scen.append({"sc": "c07.stream", "args": {"lens": [40000 if thorough else 18000, 20], "consumers": ["stalled", "fast"], "unary": 3, "quietwire": True, "waitms": 20000}})
+    scen.append({"sc": "c07.stream", "args": {"lens": [70000 if thorough else 18000, 20], "consumers": ["stalled", "fast"], "unary": 3, "quietwire": True, "waitms": 20000}})
     return scen
 
 
 @check("C07")
 def c07(run, replay):
     run.assumptions += [
-        "stream lengths 0, 1, 33, 300 (beyond the 32-slot sink and the 256-slot executor queue) and 18000 / 40000 unread values; consumers fast, slow "
+        "stream lengths 0, 1, 33, 300 (beyond the 32-slot sink and the 256-slot executor queue) and 18000 / 70000 unread values; consumers fast, slow "
         "and stalled; 3-5 concurrent streams closed by their handlers in every order; unary calls interleaved",
         "wire order (response announcing a channel before its first value) is judged by the frame-aware proxy",
         "handlers start sending immediately after returning the channel (no pacing), so 'however early' is exercised by every scenario",
@@ -650,6 +668,7 @@ def c07(run, replay):
     scen = perturb(rnd, stream_scenarios(rnd, thorough), CHAN_POINTS, 0.4)
     trace, viol = run_ws_scenarios(run, wd, scen, "c07", timeout=3000)
     report_ws(run, trace, viol, "C07", scen, "stream")
+    binding_pass(run, wd, [s for s in scen if max(s["args"].get("lens") or [0]) <= 200], "c07", limit=6 if not thorough else 30)
     run.cov["distinct_nontrivial"] = len(set(json.dumps(s, sort_keys=True) for s in scen))
     run.cov["rule"] = "stream scenarios as listed in assumptions; distinct = distinct descriptions"
     for s in scen[:3]:
@@ -690,8 +709,10 @@ def c08(run, replay):
     perturb(rnd, [s for s in scen if "p" not in s["args"]], CHAN_POINTS, 0.6)
     scen += [s for s in stream_scenarios(rnd, False) if "closeorder" in s["args"]]
     scen.append({"sc": "trap.closerace", "args": {}})
+    scen.append({"sc": "trap.chanclose", "args": {}})       # the executor closing a sink while the main loop sweeps the channel handlers
     trace, viol = run_ws_scenarios(run, wd, scen, "c08", timeout=3000)
     report_ws(run, trace, viol, "C08", scen, "termination")
+    binding_pass(run, wd, [s for s in scen if s["args"].get("instant") != "streaming"], "c08", limit=10 if not thorough else 80)
     run.cov["distinct_nontrivial"] = len(set(json.dumps(s, sort_keys=True) for s in scen))
     run.cov["rule"] = "cause x instant x length (+ seeded hook delays) + multi-stream close orders + close-race trap; distinct = distinct descriptions"
     for s in scen[:3]:
@@ -726,6 +747,7 @@ def c18(run, replay):
     scen.append({"sc": "c18.otherclosers", "args": {}})
     trace, viol = run_ws_scenarios(run, wd, scen, "c18", timeout=3000)
     report_ws(run, trace, viol, "C18", scen, "close")
+    binding_pass(run, wd, scen, "c18", limit=10 if not thorough else 120)
     run.cov["distinct_nontrivial"] = len(set(json.dumps(s, sort_keys=True) for s in scen))
     run.cov["rule"] = "close instant i (hook-point index) x {healthy, redialling} (+ seeded hook delays) + special scenarios; distinct = distinct descriptions"
     for s in scen[:2] + scen[-3:]:
@@ -734,7 +756,7 @@ def c18(run, replay):
 
 
 # --------------------------------------------------------------------------------------------- C13
-PANIC_PAYLOADS = ["string", "error", "nilmap", "nilptr", "custom", "int", "nil", "badError", "badStringer", "index"]
+PANIC_PAYLOADS = ["string", "error", "nilmap", "nilptr", "custom", "int", "nil", "badError", "badStringer", "index", "aborthandler"]
 
 
 @check("C13")
@@ -767,6 +789,14 @@ def c13(run, replay):
     for payload in ("string", "error", "nilptr"):
         scen.append({"sc": "c13.panic", "args": {"kind": "unary", "payload": payload, "transport": "ws", "siblings": True, "twice": True, "procs": 1,
                                                  "p": 0.8, "delay": ["h.resp.pre", "lazy.acquire.pre", "h.ret", "wl.enter"]}})
+    # net/http's own abort sentinel as payload, on every call kind; a handler that panics after its caller has cancelled
+    for kind in ("unary", "notify", "sub"):
+        for tr in ("ws", "http"):
+            if not (tr == "http" and kind == "sub"):
+                scen.append({"sc": "c13.panic", "args": {"kind": kind, "payload": "aborthandler", "transport": tr, "siblings": True, "twice": False, "procs": 0}})
+    for payload in ("string", "nilptr"):
+        scen.append({"sc": "c13.panic", "args": {"kind": "unary", "payload": payload, "transport": "ws", "siblings": rnd.random() < 0.5, "twice": False,
+                                                 "procs": 0, "cancelafter": True}})
     for payload in ("string", "nilmap"):
         for procs in (1, 0):
             scen.append({"sc": "c13.panic", "args": {"kind": "unary", "payload": payload, "transport": "ws", "siblings": True, "twice": True,
@@ -859,6 +889,7 @@ def c15(run, replay):
                         "h.resp.pre", "fwd.exit", "fwd.val", "handling.add", "call.spawn", "ws.done"], 0.5)
     trace, viol = run_ws_scenarios(run, wd, scen, "c15", timeout=3000)
     report_ws(run, trace, viol, "C15", scen, "connection-end")
+    binding_pass(run, wd, scen, "c15", limit=10 if not thorough else 60, client=False)
     run.cov["distinct_nontrivial"] = len(set(json.dumps(s, sort_keys=True) for s in scen))
     run.cov["rule"] = "cause x handler mix x reaction time x stalled peer x in-flight frame (+ seeded hook delays); distinct = distinct descriptions"
     for s in scen[:3]:
@@ -936,3 +967,218 @@ def c17(run, replay):
     for s in scen[:3]:
         run.sample(s)
     run.sample([e for e in trace if e.get("ev") in ("BlackholeOutcome", "DialStart", "PhaseEnd", "PhaseStart")][:12])
+
+
+# --------------------------------------------------------------------------------------------- hook-level binding (WsRpcTrace)
+def binding_pass(run, wd, scen, tag, selftest=True, limit=None, client=True):
+    """Runs single-client scenarios with every hook recorded and lets TLC check, scenario by scenario, that the merged hook + API
+    trace is a behaviour of WsRpc (WsRpcTrace.tla). A rejected trace is DRIFT (the code no longer follows the specification at
+    hook granularity), not a verdict; the self-test shows that a corrupted trace and a trace with one hook removed are rejected."""
+    import shutil
+    import concurrent.futures
+    scen = [s for s in scen if s["sc"] not in ("c06.cancel", "c16.reverse", "c13.panic", "c14.writers", "c17.keepalive", "c04.httpkill", "c18.otherclosers")
+            and (s["sc"] != "c15.end" or not client)
+            and s["args"].get("transport", "ws") == "ws" and (not s["args"].get("reverse") or s["sc"] == "c15.end") and not s["args"].get("quietwire")
+            and "reverse" not in (s["args"].get("mix") or []) and not s["args"].get("gatereader")]
+    if limit:
+        scen = scen[:limit]
+    if not scen:
+        return
+    sf = os.path.join(wd, "bscen_%s.ndjson" % tag)
+    with open(sf, "w") as f:
+        for s in scen:
+            f.write(json.dumps(s) + "\n")
+    tf = os.path.join(wd, "btrace_%s.ndjson" % tag)
+    run.harness("wsp", wd, infile=os.path.basename(sf), outfile=os.path.basename(tf), timeout=1800, args={"hooks": "1"})
+    # split per scenario
+    # hook events of a connection that did not start in this scenario (a goroutine that outlived an earlier one: the
+    # library's context watchers live until their context ends) are not part of it
+    per, cur, own, stale = [], None, set(), set()
+    for e in vp.read_ndjson(tf):
+        if e.get("ev") == "reset":
+            cur, own, stale = [e], set(), set()
+            per.append(cur)
+        elif cur is not None and e.get("ev") != "scenario-done":
+            c = e.get("conn", 0) if str(e.get("ev", "")).startswith("h:") else 0
+            if isinstance(c, int) and c > 0 and c not in own:
+                if c in stale or e["ev"] not in ("h:ws.accept", "h:main.start"):
+                    stale.add(c)
+                    continue
+                own.add(c)
+            cur.append(e)
+
+    def validate(i, events, name):
+        d = os.path.join(wd, "bind_%s_%s" % (tag, name))
+        os.makedirs(d, exist_ok=True)
+        for f in ("WsRpc.tla", "WsRpcTrace.tla"):
+            shutil.copy(os.path.join(vp.SPEC, f), d)
+        with open(os.path.join(d, "WsRpcTrace.cfg"), "w") as f:
+            f.write(wsrpc_trace_cfg(events))
+        with open(os.path.join(d, "trace.ndjson"), "w") as f:
+            for e in events:
+                f.write(json.dumps(e) + "\n")
+        r = run.tlc(d, "WsRpcTrace.tla", "WsRpcTrace.cfg", workers=1, timeout=600)
+        import re as _re
+        m = _re.search(r'"HIGHWATER", (\d+)', r["out"])
+        hw = int(m.group(1)) if m else 0
+        return {"i": i, "n": len(events), "hw": hw, "accepted": hw == len(events) + 1 and r["violated"] is None and not r["timeout"],
+                "violated": r["violated"], "states": r["distinct"], "timeout": r["timeout"], "rc": r["rc"]}
+
+    with concurrent.futures.ThreadPoolExecutor(max_workers=8) as ex:
+        fut = ex.submit(srv_binding, run, wd, per, scen, tag, selftest)
+        results = list(ex.map(lambda t: validate(t[0], t[1], "s%d" % t[0]), enumerate(per))) if client else []
+        fut.result()
+    acc = [r for r in results if r["accepted"]]
+    rej = [r for r in results if not r["accepted"]]
+    run.cov.setdefault("binding", {})
+    run.cov["binding"][tag] = {"scenarios": len(results), "accepted": len(acc), "rejected": len(rej), "hook_events": sum(r["n"] for r in results),
+                               "states": sum(r["states"] for r in results)}
+    run.cov["traces_validated_against_impl"] += len(acc)
+    for r in rej:
+        if r["timeout"] or r["rc"] not in (0, 12, 13):
+            log("binding validation of scenario %d did not complete (rc=%s)" % (r["i"], r["rc"]))
+        ev = per[r["i"]]
+        at = ev[min(r["hw"], len(ev)) - 1] if r["hw"] >= 1 else {}
+        if r["violated"] == "TraceInvs":
+            run.violation("binding %s: design invariant of WsRpc violated on a real execution" % ev[0].get("name"), "TraceInvs",
+                          {"property": run.prop, "scenario": scen[r["i"]], "events": ev[:400]})
+            continue
+        run.cov["drift"] += 1
+        run.cov.setdefault("drift_samples", []).append({"scenario": scen[r["i"]], "stuck_at_line": r["hw"], "event": at})
+        print("DRIFT property=%s binding: scenario %s is not a behaviour of WsRpc.tla at trace line %d (%s); verdicts come from the Obs predicates"
+              % (run.prop, scen[r["i"]].get("sc"), r["hw"], at.get("ev")))
+    if selftest and acc:
+        # demonstrate the binding: (1) one field corrupted, (2) one hook's events removed -> both must be rejected
+        base = per[acc[0]["i"]]
+        idx = [k for k, e in enumerate(base) if e.get("ev") == "h:inflight.add" and "tok" in e]
+        toks = sorted({e["tok"] for e in base if e.get("ev") == "h:inflight.add" and "tok" in e})
+        ok = True
+        if idx and len(toks) >= 2:
+            bad = [dict(e) for e in base]
+            bad[idx[0]]["tok"] = [t for t in toks if t != bad[idx[0]]["tok"]][0]
+            ok = ok and not validate(9001, bad, "self1")["accepted"]
+        bad2 = [e for e in base if e.get("ev") != "h:resp.deliver.pre"]
+        if len(bad2) != len(base):
+            ok = ok and not validate(9002, bad2, "self2")["accepted"]
+        run.cov["binding"][tag]["selftest_rejects_corrupted_traces"] = ok
+        if not ok:
+            raise vp.ToolFailure("binding self-test: a corrupted hook trace was accepted by WsRpcTrace")
+
+
+def wsrpc_trace_cfg(events):
+    """WsRpcTrace.cfg with the trace-derived constants as literals (WsRpcTrace.tla ASSUMEs they equal its own definitions)."""
+    def kt(K):
+        return {e["call"] for e in events if e.get("ev") == "CallStart" and e.get("kind") in K}
+    retry, notif, subs = kt({"retry"}), kt({"notify", "panicnotify"}), kt({"sub"})
+    enq = {e["tok"] for e in events if e.get("ev") == "h:req.enq.pre" and "tok" in e and e.get("method") != "xrpc.cancel"}
+    unary = (kt({"unary", "big", "bigreq", "callback", "panic"}) | enq) - retry - notif - subs
+    n = lambda name: sum(1 for e in events if e.get("ev") == name)
+    rec = not any(e.get("ev") == "reset" and (e.get("args") or {}).get("noreconnect") for e in events)
+    fs = lambda x: "{" + ", ".join(str(t) for t in sorted(x)) + "}"
+    cfg = open(os.path.join(vp.SPEC, "WsRpcTrace.cfg")).read()
+    for a, b in (("Unary <- TraceUnary", "Unary = " + fs(unary)), ("Subs <- TraceSubs", "Subs = " + fs(subs)), ("Notifs <- TraceNotif", "Notifs = " + fs(notif)),
+                 ("Retry <- TraceRetry", "Retry = " + fs(retry)), ("NVals <- TraceNVals", "NVals = 1000"), ("MaxGen <- TraceMaxGen", "MaxGen = %d" % n("h:redial.swap")),
+                 ("MaxFaults <- TraceMaxFaults", "MaxFaults = %d" % (n("WireFault") + n("h:ws.done") + 1)),
+                 ("Reconnect <- TraceReconnect", "Reconnect = %s" % ("TRUE" if rec else "FALSE"))):
+        assert a in cfg
+        cfg = cfg.replace(a, b)
+    return cfg
+
+
+def srv_binding(run, wd, per, scen, tag, selftest=True):
+    """Server half of the hook-level binding: every accepted server connection of the recorded scenarios is one segment that must
+    be a behaviour of SrvConn.tla (SrvConnTrace.tla; one TLC process for all segments).  Rejection = DRIFT."""
+    import shutil
+    import re as _re
+    import srvtrace
+    segs, unsupported = [], {}
+    for i, ev in enumerate(per):
+        try:
+            for sg in srvtrace.segments(ev):
+                segs.append((i, sg))
+        except srvtrace.Unsupported as u:
+            unsupported[str(u)] = unsupported.get(str(u), 0) + 1
+
+    def validate(name, seglist):
+        d = os.path.join(wd, "sbind_%s_%s" % (tag, name))
+        os.makedirs(d, exist_ok=True)
+        for f in ("SrvConn.tla", "SrvConnTrace.tla"):
+            shutil.copy(os.path.join(vp.SPEC, f), d)
+        ids = set()
+        for _, sg in seglist:
+            for k in ("unary", "sub", "notif", "panic", "pnotif"):
+                ids |= set(sg[0][k])
+        cfg = open(os.path.join(vp.SPEC, "SrvConnTrace.cfg")).read()
+        assert "Ids <- TraceIds" in cfg
+        with open(os.path.join(d, "SrvConnTrace.cfg"), "w") as f:
+            f.write(cfg.replace("Ids <- TraceIds", "Ids = {" + ", ".join(str(t) for t in sorted(ids)) + "}"))
+        n = 0
+        with open(os.path.join(d, "sv.ndjson"), "w") as f:
+            for _, sg in seglist:
+                for line in sg:
+                    f.write(json.dumps(line) + "\n")
+                    n += 1
+        r = run.tlc(d, "SrvConnTrace.tla", "SrvConnTrace.cfg", workers=1, timeout=900)
+        m = _re.search(r'"HIGHWATER", (\d+)', r["out"])
+        hw = int(m.group(1)) if m else 0
+        if r["violated"] == "TraceInvs":
+            mm = _re.findall(r"/\\ l = (\d+)", r["out"])
+            hw = int(mm[-1]) if mm else hw
+        return {"n": n, "hw": hw, "accepted": hw == n + 1 and r["violated"] is None and not r["timeout"], "violated": r["violated"],
+                "states": r["distinct"], "timeout": r["timeout"], "rc": r["rc"]}
+
+    def seg_of(seglist, line):
+        k = 0
+        for idx, (_, sg) in enumerate(seglist):
+            if line <= k + len(sg):
+                return idx, line - k
+            k += len(sg)
+        return len(seglist) - 1, 0
+
+    cur, rejected, states, rounds = list(segs), 0, 0, 0
+    total = len(segs)
+    while cur and rounds < 8:
+        rounds += 1
+        r = validate("r%d" % rounds, cur)
+        states += r["states"]
+        if r["accepted"]:
+            break
+        if r["timeout"] or r["hw"] < 1:
+            log("server binding validation did not complete (rc=%s)" % r["rc"])
+            break
+        idx, off = seg_of(cur, r["hw"])
+        si, sg = cur[idx]
+        at = sg[min(off, len(sg)) - 1] if off >= 1 else {}
+        if r["violated"] == "TraceInvs":
+            run.violation("binding: a design invariant of SrvConn is violated on a real execution (%s, connection %s)"
+                          % (scen[si].get("sc"), sg[0].get("gen")), "TraceInvs", {"property": run.prop, "scenario": scen[si], "segment": sg[:400]})
+        else:
+            rejected += 1
+            run.cov["drift"] += 1
+            run.cov.setdefault("drift_samples", []).append({"scenario": scen[si], "server_connection": sg[0].get("gen"), "stuck_at_line": off, "event": at})
+            print("DRIFT property=%s binding: server connection %s of scenario %s is not a behaviour of SrvConn.tla at its line %d (%s); "
+                  "verdicts come from the Obs predicates" % (run.prop, sg[0].get("gen"), scen[si].get("sc"), off, at.get("e")))
+        cur = cur[:idx] + cur[idx + 1:]
+    run.cov.setdefault("binding", {})
+    run.cov["binding"][tag + "/server"] = {"server_connections": total, "accepted": total - rejected if rounds < 8 or not cur else None, "rejected": rejected,
+                                           "events": sum(len(sg) for _, sg in segs), "states": states, "scenarios_not_bound": unsupported}
+    run.cov["traces_validated_against_impl"] += total - rejected
+    if selftest and segs:
+        # one logged field corrupted / one hook's events removed -> must be rejected
+        base = [s for s in segs if any(l["e"] == "call.spawn" and l["id"] >= 0 for l in s[1]) and len(s[1][0]["unary"]) + len(s[1][0]["sub"]) >= 2][:1]
+        ok = True
+        if base:
+            i, sg = base[0]
+            ids = sorted(set(l["id"] for l in sg if l["e"] == "call.spawn" and l["id"] >= 0))
+            bad = [dict(l) for l in sg]
+            for l in bad:
+                if l["e"] == "call.spawn" and l["id"] == ids[0]:
+                    l["id"] = ids[-1]
+                    break
+            ok = ok and not validate("self1", [(i, bad)])["accepted"]
+            bad2 = [l for l in sg if l["e"] != "wl.resp"]
+            if len(bad2) != len(sg):
+                ok = ok and not validate("self2", [(i, bad2)])["accepted"]
+            run.cov["binding"][tag + "/server"]["selftest_rejects_corrupted_traces"] = ok
+            if not ok:
+                raise vp.ToolFailure("binding self-test: a corrupted server trace was accepted by SrvConnTrace")
